@@ -12,7 +12,7 @@ ROOT = os.path.dirname(os.path.dirname(os.path.abspath(__file__)))
 EVIDENCE_DIR = os.path.join(ROOT, "evidence")
 REPLAY_DIR = os.path.join(ROOT, "replays")
 FINDINGS_FILE = os.path.join(ROOT, "known_findings.json")
-MAX_REPORTED = 200  # distinct violations written out per run; beyond that they are only counted
+MAX_REPORTED = int(os.environ.get("VERIF_MAX_REPORTED", "200"))  # distinct violations written out per run; beyond that they are only counted
 
 
 def seed() -> int:
